@@ -3,105 +3,64 @@ use crate::util::*;
 use rpki::rtr::pdu::{self, *};
 use std::io;
 
-fn mk(b: u8) -> Result<u8, io::Error> {
-    if b > 3 { Err(io::Error::new(io::ErrorKind::InvalidData, "bad")) } else { Ok(b) }
+/// @tier quick
+/// @says header const fold
+#[kani::proof]
+#[kani::unwind(4)]
+fn p1_hdr_fold() {
+    let v: u8 = kani::any();
+    let header = Header::new(v, 9, 0, 36);
+    let n = header.pdu_len().unwrap();
+    kani::cover!(true);
+    assert!(n == 36);
 }
 
 /// @tier quick
-/// @says io error creation cost
+/// @says vec zeroed of concrete size then read_exact
 #[kani::proof]
-#[kani::unwind(3)]
-fn p1_ioerr() {
-    let b: u8 = kani::any();
-    let r = mk(b);
-    kani::cover!(r.is_err());
-    assert!(r.is_err() == (b > 3));
-    std::mem::forget(r);
-}
-
-/// @tier quick
-/// @says header read only
-#[kani::proof]
-#[kani::unwind(5)]
-fn p2_header_read() {
-    let data: [u8; 12] = kani::any();
+#[kani::unwind(4)]
+fn p2_vec_concrete_read_exact() {
+    use tokio::io::AsyncReadExt;
+    let data: [u8; 4] = kani::any();
+    let mut v = vec![0u8; 4];
     let mut rd: &[u8] = &data;
-    let res = block_on(Header::read(&mut rd), 2).unwrap();
+    let res = block_on(rd.read_exact(v.as_mut()), 1).unwrap();
     kani::cover!(res.is_ok());
     assert!(res.is_ok());
-    std::mem::forget(res);
-}
-
-/// @tier quick
-/// @says payload read other type
-#[kani::proof]
-#[kani::unwind(5)]
-fn p3_other_type() {
-    let mut data: [u8; 12] = kani::any();
-    data[1] = 10;
-    let mut rd: &[u8] = &data;
-    let res = block_on(Payload::read(&mut rd), 2).unwrap();
-    kani::cover!(res.is_err());
-    assert!(res.is_err());
-    std::mem::forget(res);
-}
-
-/// @tier quick
-/// @says router key read of concrete wire
-#[kani::proof]
-#[kani::unwind(3)]
-fn p4_rk_read() {
-    let mut data: [u8; 33] = kani::any();
-    data[1] = 9; data[4] = 0; data[5] = 0; data[6] = 0; data[7] = 33;
-    let mut rd: &[u8] = &data;
-    let res = block_on(RouterKey::read(&mut rd), 1).unwrap();
-    kani::cover!(res.is_ok());
-    assert!(res.is_ok());
-    std::mem::forget(res);
-}
-
-/// @tier quick
-/// @says aspa read of concrete wire
-#[kani::proof]
-#[kani::unwind(5)]
-fn p5_aspa_read() {
-    let mut data: [u8; 16] = kani::any();
-    data[1] = 11; data[4] = 0; data[5] = 0; data[6] = 0; data[7] = 16;
-    let mut rd: &[u8] = &data;
-    let res = block_on(Aspa::read(&mut rd), 2).unwrap();
-    kani::cover!(res.is_ok());
-    assert!(res.is_ok());
-    std::mem::forget(res);
-}
-
-/// @tier quick
-/// @says Bytes::from(vec) with symbolic len
-#[kani::proof]
-#[kani::unwind(5)]
-fn p6_bytes_from_vec() {
-    let n: usize = kani::any();
-    kani::assume(n <= 64);
-    let v = vec![0u8; n];
+    assert!(v[0] == data[0] && v[3] == data[3]);
     let b: bytes::Bytes = v.into();
-    kani::cover!(b.len() == 7);
-    assert!(b.len() == n);
+    assert!(b[1] == data[1]);
+    std::mem::forget(res);
     std::mem::forget(b);
 }
 
 /// @tier quick
-/// @says vec zeroed symbolic len + read_exact
+/// @says rk read_payload with constructed header, N=4
 #[kani::proof]
-#[kani::unwind(5)]
-fn p7_vec_read_exact() {
-    use tokio::io::AsyncReadExt;
-    let data: [u8; 16] = kani::any();
-    let n: usize = kani::any();
-    kani::assume(n <= 64);
-    let mut v = vec![0u8; n];
-    let mut rd: &[u8] = &data;
-    let res = block_on(rd.read_exact(v.as_mut()), 2).unwrap();
+#[kani::unwind(4)]
+fn p3_rk_read_payload() {
+    let v: u8 = kani::any();
+    let fl: u8 = kani::any();
+    let body: [u8; 28] = kani::any(); // 20 ski + 4 asn + 4 key info
+    let header = Header::new(v, 9, (fl as u16) << 8, 36);
+    let mut rd: &[u8] = &body;
+    let res = block_on(RouterKey::read_payload(header, &mut rd), 1).unwrap();
     kani::cover!(res.is_ok());
-    assert!(res.is_ok() == (n <= 16));
+    assert!(res.is_ok());
     std::mem::forget(res);
+}
+
+/// @tier quick
+/// @says vec of header len
+#[kani::proof]
+#[kani::unwind(4)]
+fn p4_vec_of_hdr_len() {
+    let header = Header::new(0, 9, 0, 36);
+    let n = header.pdu_len().unwrap();
+    let v = vec![0u8; n];
+    kani::cover!(true);
+    let i: usize = kani::any();
+    kani::assume(i < 36);
+    assert!(v[i] == 0);
     std::mem::forget(v);
 }
